@@ -7,10 +7,15 @@ import MenelausVerif.Driver.Core
 import MenelausVerif.Driver.Election
 import MenelausVerif.Driver.Lifecycle
 import MenelausVerif.Driver.Sequential
+import MenelausVerif.Driver.Ensemble
+import MenelausVerif.Driver.NNSP
+import MenelausVerif.Driver.MD3
+import MenelausVerif.Driver.Inject
+import MenelausVerif.Driver.LFR
 open MV.Driver
 
 def registry : List (List String → Option Machine) :=
-  [mkElection, mkLifecycle, mkSequential]
+  [mkElection, mkLifecycle, mkSequential, mkEnsemble, mkNNSP, mkMD3, mkInject, mkLFR]
 
 def mkMachine (ts : List String) : Option Machine :=
   registry.findSome? (fun f => f ts)
